@@ -16,7 +16,7 @@ META = {
         "quick": "CNF shapes 1..3 groups x 1..2 alternatives (<=4 literals), every literal with each of the 6 prefixes ('', @, -, ~, -@, ~@) "
                  "and optional :limit, as argument list and as one string, protocols v1 and auto_detect; all subsets of the 14-tag universe "
                  "(z3 Booleans); v2 trees (30) x 6 renderings under auto_detect; mixed texts: every operand position of 40 v2 renderings x 4 prefixes",
-        "thorough": "shapes up to 3x3, 120 v2 trees, mixed texts from 200 renderings",
+        "thorough": "shapes with up to 4 literals (limits only up to 3 literals), 120 v2 trees, mixed texts from 200 renderings",
     },
     "outside": ["tag names that are themselves the words and/or/not", "unbounded symbolic tag text"],
     "assumptions": [],
@@ -43,7 +43,7 @@ def h_v1(sx):
             k += 1
             p = sx.choice("prefix:%d:%d" % (gi, li), list(range(len(PREFIXES))))
             p = p if isinstance(p, int) else p.concretize()
-            lim = sx.choice("limit:%d:%d" % (gi, li), [0, 1])
+            lim = sx.choice("limit:%d:%d" % (gi, li), [0, 1]) if sx.params.get("limits", True) else 0
             lim = lim if isinstance(lim, int) else lim.concretize()
             prefix = PREFIXES[p]
             g.append((prefix.startswith("-") or prefix.startswith("~"), name))
@@ -129,7 +129,7 @@ def jobs(tier, seed):
         for form in ("list", "string"):
             for proto in ("v1", "auto"):
                 js.append(Job("v1.%s.%s.%s" % ("x".join(map(str, sh)), form, proto), "props.c08:h_v1",
-                              {"shape": sh, "form": form, "protocol": proto},
+                              {"shape": sh, "form": form, "protocol": proto, "limits": sum(sh) <= 3},
                               reach=["C08.v1-meaning(AND of OR, -/~ negate, @ optional)"], min_paths=10,
                               cost=12 ** sum(sh), validate=40, closure=False))
     trees = trees_for(tier, seed)
